@@ -9,6 +9,9 @@
 (*         Concat, Closed, SameOutcome (value, detail, variables,          *)
 (*         generator state, callbacks), and - when the consumed text is a  *)
 (*         program of the Lang oracle - the value Lang prescribes          *)
+(*   c06/c09/c09u  reproducibility, snapshot/restore (see below)           *)
+(*   c17t/c17p     extension points: transparency of inert extensions and  *)
+(*         the custom dice protocol of spec/Ext.tla on recorded runs       *)
 (* Failures are collected per line (never fatal).                          *)
 (***************************************************************************)
 EXTENDS Integers, Sequences, TLC, Json, IOUtils
@@ -78,7 +81,49 @@ CheckC06(e) ==
   \cup Tag(SameSeeded(e.r1, e.r2), "not-resumable")
   \cup Tag(~e.a.panic /\ ~e.r1.panic /\ ~e.r2.panic, "crash")
 
+\* c17t: a history of programs on a plain VM (a) and on an identically seeded VM with extensions installed that never act (b):
+\* custom syntaxes that do not match at any operand start, pass-through load/store hooks, identity detail rewriters
+CheckC17t(e) ==
+  Tag(e.invokes = 0, "handler-ran-without-a-match")
+  \cup Tag(Len(e.a) = Len(e.b) /\ \A i \in 1..Len(e.a) : (SameOutcome(e.a[i], e.b[i]) /\ e.a[i].seed = e.b[i].seed), "not-transparent")
+
+\* c17p: a program whose operands include matching custom syntaxes (b), and the same program with their values written out (a).
+\* ops = the custom operands in source order with what the handler must receive and how often each is evaluated;
+\* listing = the dice.custom instructions compiled; events = handler invocations and dice.custom dispatches (hook H1) in real order.
+\* Statements of spec/Ext.tla on the recorded run: CodeFaithful, InvokeOncePerExec, UsedByCopy.
+RunEvents(e) == SelectSeq(e.events, LAMBDA x : x.e \in {"exec", "invoke"})
+Count(seq, P(_)) == Len(SelectSeq(seq, P))
+CheckC17p(e) ==
+  LET re == RunEvents(e)
+      n == Len(e.ops) IN
+  IF ~Ran(e.a) THEN {}     \* the program is not valid even with plain numbers (generator artefact)
+  ELSE Tag(Ran(e.b), "custom-operand-rejected")
+       \* CodeFaithful: one instruction per written operand, in source order, carrying exactly the matched text, groups and payload
+       \cup Tag(Len(e.listing) = n /\ \A i \in 1..Len(e.listing) : i <= n =>
+                   (e.listing[i].groups = e.ops[i].groups /\ e.listing[i].text = e.ops[i].display /\ e.listing[i].payload = e.ops[i].payload),
+               "compiled-operand-differs")
+       \cup (IF ~Ran(e.b) THEN {}
+             ELSE \* InvokeOncePerExec: dispatch and handler call alternate, the call receives the instruction's own pristine groups
+                  Tag(Len(re) % 2 = 0 /\ \A k \in 1..Len(re) :
+                        IF k % 2 = 1 THEN re[k].e = "exec"
+                        ELSE re[k].e = "invoke" /\ re[k].groups = re[k-1].groups /\ re[k].payload = re[k-1].payload /\ re[k].depth = re[k-1].depth,
+                      "handler-calls-differ-from-dispatches")
+                  \* each operand is evaluated as often as the program evaluates it
+                  \cup Tag(\A i \in 1..n :
+                            Count(re, LAMBDA x : x.e = "exec" /\ x.groups = e.ops[i].groups)
+                              = LET same == {j \in 1..n : e.ops[j].groups = e.ops[i].groups}
+                                    RECURSIVE Sum(_)
+                                    Sum(S) == IF S = {} THEN 0 ELSE LET j == CHOOSE j \in S : TRUE IN e.ops[j].count + Sum(S \ {j})
+                                IN Sum(same),
+                          "evaluation-count")
+                  \* the returned value is the operand's value
+                  \cup Tag(e.b.ret = e.a.ret /\ e.b.vars = e.a.vars /\ e.b.rolls = e.a.rolls, "returned-value-not-used")
+                  \* UsedByCopy: changing the returned object afterwards changes nothing the VM holds
+                  \cup Tag(e.retAfter = e.retBefore /\ e.varsAfter = e.varsBefore, "result-aliased"))
+
 Check(e) == CASE e.ev = "c03" -> CheckC03(e)
+              [] e.ev = "c17t" -> CheckC17t(e)
+              [] e.ev = "c17p" -> CheckC17p(e)
               [] e.ev = "c06" -> CheckC06(e)
               [] e.ev = "c09" -> CheckC09(e)
               [] e.ev = "c09u" -> CheckC09u(e)
